@@ -163,6 +163,7 @@ structure CSt where
   ccfg   : Option (Int × Nat × Nat) := none          -- expire (s), minimum-complete bits, allowed lag
   cache  : EvalCache.Cache Group.GroupStatus := []
   cfg    : Http.Cfg := []
+  secrets : List String := []                       -- the configured password values of this case (C18)
 
 def unhexStr? (s : String) : Option String :=
   if s == "-" then some "" else do
@@ -231,6 +232,7 @@ def parseCfgVal? (s : String) : Option Http.CfgVal :=
   | ["i", v] => v.toInt?.map .int
   | ["b", v] => some (.bool (v == "true"))
   | ["l", v] => (parseList? v "," unhexStr?).map .list
+  | ["m", _] => some .table
   | _ => none
 
 def parseCfg? (s : String) : Option Http.Cfg :=
@@ -261,6 +263,23 @@ def renderJTopics (topics : ConsumerTopics) : String :=
     unname t ++ "[" ++ "|".intercalate (parts.map fun p =>
       s!"{p.currentLag}/{unname p.owner}/{unname p.clientID}/" ++
         (if p.offsets.isEmpty then "-" else ";".intercalate (p.offsets.map showJOffset))) ++ "]")
+
+def containsSub (s sub : String) : Bool := !sub.isEmpty && (s.splitOn sub).length > 1
+
+def fieldStrings : Http.FieldVal → List String
+  | .s v => [v]
+  | .l v => v
+  | .m v => v.flatMap fun (k, x) => [k, x]
+  | _ => []
+
+/-- does the response carry one of the configured password values? (the containment test of C18) -/
+def respLeaks (r : Http.Resp) (secrets : List String) : Bool :=
+  let strs : List String := match r.payload with
+    | .module fs => fs.flatMap fun (_, v) => fieldStrings v
+    | .moduleList _ l => l
+    | .names _ l => l
+    | _ => []
+  secrets.any fun sec => strs.any fun s => containsSub s sec
 
 def showResp (r : Http.Resp) : String :=
   let ct := match r.ctype with | .json => "json" | .text => "text" | .none => "none"
@@ -347,7 +366,10 @@ def stepC (st : CSt) (args : List String) : CSt × String :=
             | _ => acc) acc) (s0, [])
         ({ st with store := some s' }, " ".intercalate ("ok" :: outs))
     | _, _ => (st, "bad-op")
-  | ["secrets", _] => (st, "ok")
+  | ["secrets", l] =>
+    match parseList? l "," unhexStr? with
+    | some secrets => ({ st with secrets }, "ok")
+    | none => (st, "bad-op")
   | ["httpinit", leaves] =>
     match parseCfg? leaves with
     | some cfg => ({ st with cfg }, "ok")
@@ -389,7 +411,9 @@ def stepC (st : CSt) (args : List String) : CSt × String :=
       let tsr := path.length > 1 && path.endsWith "/" &&
         (match Http.route Burrow.Generated.routes method path with
          | .redirect _ _ => true | .notFound => true | _ => false)
-      (st', if tsr then "code=tsr" else showResp r ++ viol)
+      -- D20: a configured password value in a response (dotted module names; the model reproduces viper)
+      let leak := if respLeaks r st.secrets then " leak=1 ~specviol=D20" else ""
+      (st', if tsr then "code=tsr" else showResp r ++ (if leak.isEmpty then viol else leak))
     | _, _ => (st, "bad-op")
   | ["scrape", now] =>
     match parseInt? now with
